@@ -167,12 +167,85 @@ def check_grids(rng, nr):
     n = rng.randint(2, 60)
     amin = rng.choice([0.0, 0.0, -1.5, 0.3, -0.25])
     amax = amin + nr.uniform(0.5, 500)
-    for name, g in (('asset_grid', dz.asset_grid(amin, amax, n)), ('agrid', dz.agrid(amax, n, amin)), ('nonlinspace', dz.nonlinspace(amax, n, nr.uniform(1.0, 2.0), amin))):
+    grids_ = [('asset_grid', dz.asset_grid(amin, amax, n)), ('agrid', dz.agrid(amax, n, amin)), ('nonlinspace', dz.nonlinspace(amax, n, nr.uniform(1.0, 2.0), amin))]
+    if amin >= 0:
+        grids_.append(('agrid_old', dz.agrid_old(amax, n, amin)))        # the legacy constructor is log-spaced around a pivot that is positive only for amin >= 0
+    for name, g in grids_:
         inp = dict(kind='grid', name=name, amin=amin, amax=float(amax), n=n)
         if len(g) != n or not np.all(np.diff(g) > 0):
             return dict(what=f'{name} is not strictly increasing with n points', input=inp, signature=dict(op='grid', name=name))
         if abs(g[0] - amin) > 1e-12 * max(1, abs(amin)) or abs(g[-1] - amax) > 1e-9 * max(1, abs(amax)):
             return dict(what=f'{name} does not have the requested end points', input=inp, observed=[float(g[0]), float(g[-1])], signature=dict(op='grid-ends', name=name))
+    return None
+
+
+def check_moment_helpers(rng, nr):
+    """discretize.mean / variance / std / cov / corr of discretised random variables vs direct numpy formulas"""
+    ip, dz = mods()
+    k = rng.randint(2, 9)
+    pi = nr.uniform(size=k)
+    pi /= pi.sum()
+    x, y = nr.normal(size=k), nr.normal(size=k)
+    mx, my = (pi * x).sum(), (pi * y).sum()
+    vx, vy = (pi * (x - mx) ** 2).sum(), (pi * (y - my) ** 2).sum()
+    cxy = (pi * (x - mx) * (y - my)).sum()
+    exp = dict(mean=mx, variance=vx, std=np.sqrt(vx), cov=cxy, corr=cxy / np.sqrt(vx * vy))
+    got = dict(mean=dz.mean(x, pi), variance=dz.variance(x, pi), std=dz.std(x, pi), cov=dz.cov(x, y, pi), corr=dz.corr(x, y, pi))
+    bad = [kk for kk in exp if abs(got[kk] - exp[kk]) > 1e-12 * max(1, abs(exp[kk]))]
+    if bad:
+        return dict(what='moment helpers of the discretisation module differ from their definitions', input=dict(kind='moments', x=x.tolist(), y=y.tolist(), pi=pi.tolist(), wrong=bad), signature=dict(op='moments', which=bad[0]))
+    # stationary() from a supplied seed reaches the same distribution
+    P = nr.uniform(size=(k, k)) + 0.1
+    P /= P.sum(1, keepdims=True)
+    a, b = dz.stationary(P), dz.stationary(P, pi_seed=pi)
+    if np.abs(a - b).max() > 1e-8 or np.abs(a @ P - a).max() > 1e-9 or abs(a.sum() - 1) > 1e-9:
+        return dict(what='stationary() started from a supplied seed does not reach the invariant distribution', input=dict(kind='moments', P=P.tolist(), seed=pi.tolist()), signature=dict(op='stationary-seed'))
+    return None
+
+
+def check_small_routines(rng, nr):
+    """compiled helpers used by the backward/forward iterations and the discrete-choice stages, against direct numpy formulas"""
+    from sequence_jacobian.utilities import optimized_routines as orr, misc, interpolate as ipm
+    shape = (rng.randint(1, 4), rng.randint(2, 6))
+    x1 = nr.normal(size=shape)
+    x2 = x1 + nr.normal(size=shape) * 10.0 ** -rng.randint(3, 12)
+    tol = 10.0 ** -rng.randint(3, 12)
+    inp = dict(kind='small', seed=int(nr.integers(1 << 30)))
+    if bool(orr.within_tolerance(x1, x2, tol)) != bool(np.max(np.abs(x1 - x2)) <= tol):
+        return dict(what='within_tolerance disagrees with max|x1 - x2| <= tol', input=dict(inp, x1=x1.tolist(), x2=x2.tolist(), tol=tol), signature=dict(op='small', which='within_tolerance'))
+    # 3-D arrays and a difference hidden in the LAST entry
+    y1 = nr.normal(size=(2, 3, 4))
+    y2 = y1.copy()
+    y2[-1, -1, -1] += 3 * tol
+    if orr.within_tolerance(y1, y2, tol) or not orr.within_tolerance(y1, y1.copy(), tol):
+        return dict(what='within_tolerance misses a difference in the last entry of a 3-D array (or rejects equal arrays)', input=inp, signature=dict(op='small', which='within_tolerance'))
+    X, Y = nr.normal(size=(4, 2, 3)), nr.normal(size=(4, 2, 3))
+    if np.abs(orr.fast_aggregate(X, Y) - np.sum(X * Y, axis=(1, 2))).max() > 1e-12:
+        return dict(what='fast_aggregate differs from the date-by-date sum of products', input=inp, signature=dict(op='small', which='fast_aggregate'))
+    a = np.sort(nr.normal(size=shape), axis=1)
+    amin = float(nr.normal())
+    b = a.copy()
+    orr.setmin(b, amin)
+    if not np.array_equal(b, np.maximum(a, amin)):
+        return dict(what='setmin on row-wise ascending data differs from max(x, xmin)', input=dict(inp, x=a.tolist(), xmin=amin), signature=dict(op='small', which='setmin'))
+    x0, x1p = sorted(nr.normal(size=2))
+    y0, y1p, xq = nr.normal(size=3)
+    if abs(ipm.interpolate_point(xq, x0, x1p + 0.1, y0, y1p) - (y0 + (xq - x0) * (y1p - y0) / (x1p + 0.1 - x0))) > 1e-12:
+        return dict(what='interpolate_point is not the line through the two points', input=inp, signature=dict(op='small', which='interpolate_point'))
+    # logit choice over the 0th axis with some unavailable (-inf) options
+    V = nr.normal(size=(3, 2, 4)) * 2
+    V[0, 1, :] = -np.inf
+    scale = float(nr.uniform(0.05, 2.0))
+    P, EV = misc.logit_choice(V, scale)
+    w = np.exp((V - V.max(axis=0)) / scale)
+    Pe = w / w.sum(axis=0)
+    EVe = V.max(axis=0) + scale * np.log(w.sum(axis=0))
+    if np.abs(P - Pe).max() > 1e-12 or np.abs(EV - EVe).max() > 1e-12 or np.abs(P.sum(axis=0) - 1).max() > 1e-12 or P[0, 1].max() != 0 \
+            or np.abs(misc.logit(V, scale) - Pe).max() > 1e-12 or np.abs(misc.logsum(V, scale) - EVe).max() > 1e-12:
+        return dict(what='logit choice probabilities / expected value differ from the softmax and log-sum formulas', input=dict(inp, scale=scale), signature=dict(op='small', which='logit'))
+    v = nr.normal(size=(2, 5))
+    if np.abs(misc.demean(v) - (v - v.mean())).max() > 1e-14:
+        return dict(what='demean does not subtract the mean', input=inp, signature=dict(op='small', which='demean'))
     return None
 
 
@@ -235,7 +308,7 @@ def oracle(ctx, hints, broken):
     viol, n = [], 0
     deep = bool(broken) or ctx['tier'] == 'thorough'
     for k in range(150 if not deep else 1500):
-        for f in (check_interp, check_grids, check_markov):
+        for f in (check_interp, check_grids, check_markov, check_moment_helpers, check_small_routines):
             n += 1
             try:
                 v = f(rng, nr)
@@ -252,7 +325,7 @@ def oracle(ctx, hints, broken):
 def replay(rp):
     c = rp.get('input') or {}
     rng, nr = C.Rng(5), np.random.default_rng(5)
-    f = dict(interp=check_interp, grid=check_grids, rouwenhorst=check_markov, tauchen=check_markov, stationary=check_markov).get(c.get('kind'))
+    f = dict(interp=check_interp, grid=check_grids, moments=check_moment_helpers, small=check_small_routines, rouwenhorst=check_markov, tauchen=check_markov, stationary=check_markov).get(c.get('kind'))
     if not f:
         return None
     for _ in range(300):
